@@ -294,7 +294,7 @@ fn leak_obs(fc: &FaultCase, run: &FaultRun) -> Value {
             continue;
         };
         let delta = u128::from_le_bytes(d.value[..16].try_into().unwrap());
-        let r = crate::leak::scan(&run.ex.net, delta, false);
+        let r = crate::leak::scan(&run.ex.net, delta, false, Some(fc.plan.corrupt));
         out.push(json!({"target": t, "windows": r.windows, "kind": r.kind(), "direct": r.direct, "pair": r.pair}));
     }
     json!(out)
